@@ -82,7 +82,7 @@ fn lagrange_at<C: Ciphersuite>(xs: &[frost_core::Scalar<C>], xi: frost_core::Sca
 }
 
 pub fn run<C: Ciphersuite, L: Lab<C>>(lab: &mut L, p: &Params) {
-    let Some((sk, _sh, keys)) = dealer_keys::<C, L>(lab, p) else { return };
+    let Some((_sk, dealer_shares, keys)) = dealer_keys::<C, L>(lab, p) else { return };
     let ids: Vec<Identifier<C>> = keys.0.keys().copied().collect();
     let helpers: Vec<Identifier<C>> = p.subset.iter().map(|i| ids[*i]).collect();
     let t = p.t as usize;
@@ -173,20 +173,16 @@ pub fn run<C: Ciphersuite, L: Lab<C>>(lab: &mut L, p: &Params) {
     lab.check(*kp.identifier() == target && *kp.min_signers() == p.t, "repaired key package carries the identifier and the threshold");
     lab.eq_e(kp.verifying_key().to_element(), keys.1.verifying_key().to_element(), "repaired key package carries the group key");
     lab.eq_e(kp.verifying_share().to_element(), g::<C>() * s, "repaired verifying share = G * repaired signing share");
-    // the group polynomial: (sk, dealer draws 0..t-2)
-    let mut coeffs = vec![Some(sk)];
-    for k in 1..t {
-        coeffs.push(lab.draw_scalar(k - 1));
-    }
-    if coeffs.iter().all(|c| c.is_some()) {
+    // the group polynomial in its public form (the dealer's commitment): G * share = sum_k phi_k * id^k
+    if let Some(any) = dealer_shares.values().next() {
         let x = target.to_scalar();
         let mut pw = one::<C>();
-        let mut acc = zero::<C>();
-        for c in &coeffs {
-            acc = acc + c.unwrap() * pw;
+        let mut acc = ident::<C>();
+        for phi in any.commitment().coefficients() {
+            acc = acc + phi.value() * pw;
             pw = pw * x;
         }
-        lab.eq_s(s, acc, "repaired share = the group polynomial evaluated at the participant's identifier");
+        lab.eq_e(g::<C>() * s, acc, "repaired share = the group polynomial evaluated at the participant's identifier (G * share = sum_k phi_k * id^k)");
     }
     if existing {
         lab.eq_s(s, keys.0[&target].signing_share().to_scalar(), "repaired share = the share that was lost");
